@@ -3,6 +3,7 @@ package checks
 import (
 	"bytes"
 	"fmt"
+	"os"
 
 	"verifharness/core"
 	"verifharness/kz"
@@ -94,8 +95,20 @@ func runIoCase(c *ioCase) (kind, detail string, ok bool) {
 func c06(run *core.Run, replay string) {
 	run.SetRule("the same valid stream is decoded through io.Readers that deliver it in short reads (fixed 1..65537-byte chunks incl. sizes not multiple of 8, random sizes, pipe-like, (n>0, io.EOF) together), " +
 		"with arbitrary sequences of Read buffer lengths (incl. 0 and 1), and the same data is written with arbitrary Write partitions; oracle: identical bytes / identical stream as the all-at-once run; " +
-		"plus the C14 bit-level read programs replayed on DefaultInputBitStream over chunked sources; non-trivial = the partition actually splits the transfer (chunk < stream length); distinct = (recipe, mode, partition, jobs)")
+		"plus the C14 bit-level read programs replayed on DefaultInputBitStream over chunked sources; plus the built command-line tool decoding the same archive from a file, to a pipe and from a pipe fed in pieces of 333..65536 bytes, for block size x jobs combinations whose batches do / do not end on its 32 KiB read size; non-trivial = the partition actually splits the transfer (chunk < stream length); distinct = (recipe, mode, partition, jobs)")
 	if replay != "" {
+		var tc toolIoCase
+		if err := core.LoadReplay(replay, &tc); err == nil && tc.BlockSize != "" {
+			k, d := runToolIoCase(&tc)
+			run.Eval(1)
+			if k != "" {
+				run.Violate("C06 tool "+k, d, tc)
+			}
+			if cliTmpRoot != "" {
+				os.RemoveAll(cliTmpRoot)
+			}
+			return
+		}
 		var c ioCase
 		if err := core.LoadReplay(replay, &c); err != nil {
 			var b bsCase
@@ -210,6 +223,7 @@ func c06(run *core.Run, replay string) {
 			run.Violate("C06 bitstream "+o.kind+" op="+o.op, fmt.Sprintf("source chunk=%d: %s", c.Chunk, o.detail), c)
 		}
 	})
+	c06Tool(run)
 	for i := 0; i < 6; i++ {
 		run.Sample(cases[(i*7919+1)%len(cases)])
 	}
